@@ -28,6 +28,7 @@ type Graph struct {
 	Exits []int // vertices of return statements (including the synthetic fall-off return)
 	lockCls []map[string]bool
 	writeVerts map[types.Object][]int
+	vmap       map[ast.Node]int
 	// Dead-end vertices: end vertices of live blocks with no successors and no return (panic etc).
 	NoRet []int
 }
@@ -124,6 +125,38 @@ func (g *Graph) Vertices(pred func(ast.Node) bool) []int {
 
 // VertexOf returns the vertex of the innermost CFG node whose source range encloses n (-1 if none).
 func (g *Graph) VertexOf(n ast.Node) int {
+	// by identity first: positions are unreliable inside normalised comparisons (see normaliseComparisons)
+	if g.vmap == nil {
+		g.vmap = map[ast.Node]int{}
+		size := make([]int, g.N)
+		for v := 0; v < g.N; v++ {
+			if g.node[v] != nil {
+				ast.Inspect(g.node[v], func(m ast.Node) bool {
+					if m != nil {
+						size[v]++
+					}
+					return true
+				})
+			}
+		}
+		for v := 0; v < g.N; v++ {
+			if g.node[v] == nil {
+				continue
+			}
+			ast.Inspect(g.node[v], func(m ast.Node) bool {
+				if m == nil {
+					return true
+				}
+				if cur, ok := g.vmap[m]; !ok || size[v] < size[cur] {
+					g.vmap[m] = v
+				}
+				return true
+			})
+		}
+	}
+	if v, ok := g.vmap[n]; ok {
+		return v
+	}
 	best, bestLen := -1, token.Pos(0)
 	for v := 0; v < g.N; v++ {
 		x := g.node[v]
